@@ -188,7 +188,23 @@ class AGen:
                     acts.append(["task", 0])
                 acts.append(["adv", 8])
             acts.append(["ack"])
-        return {"node": sp, "sink": sink, "actions": acts}
+        case = {"node": sp, "sink": sink, "actions": acts}
+        if self.mix and pmix == 0.0 and kind not in ("zip", "zip3") and r.random() < 0.3 and self.nextval:
+            # the consumer reacts to some elements by emitting follow-ups into the source inside the hand-over
+            react = {}
+            nv = 500
+            for key in r.sample(range(1, self.nextval + 1), min(self.nextval, r.choice([1, 1, 2]))):
+                react[str(key)] = [nv + j for j in range(r.choice([1, 1, 2, 3]))]
+                nv += 10
+            case["react"] = react
+            extra = sum(len(v) for v in react.values())
+            for _ in range(extra + 1):
+                acts.append(["ack"])
+                if kind == "map_async":
+                    acts.append(["task", 0])
+                acts.append(["adv", 8])
+            acts.append(["ack"])
+        return case
 
 
 if __name__ == "__main__":
